@@ -135,6 +135,34 @@ def run(ctx, rep: Report, deep: bool = False):
         cases.append(Case("names combine " + " ".join(FN.hxs(x) for x in names), FN.combine_str(names)))
         oracle_combine(rep, names, groups)
         rep.feat("combine_lists_random")
+    # same-stem families: up to three L/R pairs that differ only in the separator, with or without a
+    # sibling named like the stem / like the first numbered stem (several pairs compete for stem names)
+    seps = ["-", " ", " -"]
+    fam = 0
+    for choice in itertools.product(("none", "L", "R", "both"), repeat=3):
+        for with_stem in (False, True):
+            for with_num in (False, True):
+                names = []
+                for sp, c in zip(seps, choice):
+                    if c in ("L", "both"):
+                        names.append("KICK" + sp + "L")
+                    if c in ("R", "both"):
+                        names.append("KICK" + sp + "R")
+                if with_stem:
+                    names.append("KICK")
+                if with_num:
+                    names.append("KICK (2)")
+                if not names:
+                    continue
+                for k in range(3 if (deep or not ctx.quick) else 2):
+                    lst = list(names)
+                    if k:
+                        rng.shuffle(lst)
+                    groups = FN.combine_real(lst)
+                    cases.append(Case("names combine " + " ".join(FN.hxs(x) for x in lst), FN.combine_str(lst)))
+                    oracle_combine(rep, lst, groups)
+                    fam += 1
+    rep.feat("same_stem_families", fam)
     # duplicate input names (cannot happen after C06; model/impl correspondence only)
     for lst in [("A L", "A L", "A R"), ("A", "A"), ("A L", "A R", "A R")]:
         cases.append(Case("names combine " + " ".join(FN.hxs(x) for x in lst), FN.combine_str(lst)))
@@ -142,7 +170,7 @@ def run(ctx, rep: Report, deep: bool = False):
     if ctx.model_available:
         compare_family(rep, "names-stereo", cases, nontrivial=lambda c: "4c" in c.op or "52" in c.op, exhaustive=True)
     rep.exhaustive = True
-    rep.required_features = ["stereo_regex_exhaustive", "combine_lists_exhaustive", "lists_with_pairs", "combine_lists_random"]
+    rep.required_features = ["stereo_regex_exhaustive", "combine_lists_exhaustive", "lists_with_pairs", "combine_lists_random", "same_stem_families"]
 
 
 def search(ctx, rep: Report):
